@@ -14,6 +14,10 @@ HERE = os.path.dirname(os.path.abspath(__file__))
 PYTHON = "/venv/bin/python"
 
 M = []
+# Dropped after the first run because they are equivalent on this platform / in this code base (not observable):
+#   write_drop_newline_arg  - newline=None on *write* only translates "\n" to os.linesep, which is "\n" on Linux
+#   inc1_reset_to_zero      - _reset_rollover_fields re-applies inc1=1 after reading the table
+#   tag_change_keeps_num    - the rollover rule already zeroes NUM whenever TAG (to its left) changes
 
 
 def mut(name, props, path, old, new, count=1):
@@ -38,8 +42,6 @@ mut("root_segment_omitted_again", ["C04", "C05", "C02", "C03"], "v2version.py",
 mut("rewrite_from_old_line", ["C03"], "v2rewrite.py", "        cur_line = new_lines[match.lineno]", "        cur_line = match.line")
 mut("only_first_match_per_line", ["C03"], "parse.py", "        for match in pattern.regexp.finditer(line):",
     "        for match in [m for m in [pattern.regexp.search(line)] if m]:")
-mut("write_drop_newline_arg", ["C04"], "v2rewrite.py", '        with io.open(file_data.path, mode="wt", newline=\'\', encoding="utf-8") as fobj:',
-    '        with io.open(file_data.path, mode="wt", encoding="utf-8") as fobj:')
 mut("read_drop_newline_arg", ["C04", "C03"], "v2rewrite.py", '        with file_path.open(mode="rt", newline=\'\', encoding="utf-8") as fobj:\n            content = fobj.read()\n\n        rfd = rfd_from_content(patterns, new_vinfo, content)\n        yield',
     '        with file_path.open(mode="rt", encoding="utf-8") as fobj:\n            content = fobj.read()\n\n        rfd = rfd_from_content(patterns, new_vinfo, content)\n        yield')
 mut("write_drop_encoding", ["C04"], "v2rewrite.py", '        with io.open(file_data.path, mode="wt", newline=\'\', encoding="utf-8") as fobj:',
@@ -54,8 +56,6 @@ mut("strip_trailing_newline_on_write", ["C04"], "v2rewrite.py", "        new_con
 mut("pin_date_week0_or_default", ["C05"], "v2version.py", "        defaults.week_w if vinfo.week_w is None else vinfo.week_w,", "        vinfo.week_w or defaults.week_w,")
 mut("no_reset_after_calendar_change", ["C05"], "v2version.py", "        elif getattr(old_vinfo, field) != getattr(cur_vinfo, field):\n            has_reset = True",
     "        elif field not in ('year_y', 'month') and getattr(old_vinfo, field) != getattr(cur_vinfo, field):\n            has_reset = True")
-mut("inc1_reset_to_zero", ["C05"], "version.py", "    'inc1' : \"1\",", "    'inc1' : \"0\",")
-mut("tag_change_keeps_num", ["C05"], "v2version.py", "        if tag != cur_vinfo.tag:\n            cur_vinfo = cur_vinfo._replace(num=0)", "        if False:\n            cur_vinfo = cur_vinfo._replace(num=0)")
 mut("future_guard_removed", ["C05", "C14"], "v2version.py", "    if _is_cal_gt(old_vinfo, cur_cinfo):", "    if False and _is_cal_gt(old_vinfo, cur_cinfo):")
 mut("week_w_uses_percent_U", ["C05", "C14", "C02"], "v2version.py", "        'week_w' : int(date.strftime(\"%W\"), base=10),", "        'week_w' : int(date.strftime(\"%U\"), base=10),")
 # ---- C06
